@@ -37,6 +37,14 @@ def _work(case):
     try:
         res = _MOD.impl(case)
     except Exception as e:  # harness bug or unexpected implementation crash: surfaced, never swallowed
+        frames = traceback.extract_tb(e.__traceback__)
+        in_pkg = [f for f in frames if (os.sep + "gwcs" + os.sep) in f.filename and not f.filename.startswith(C.VERIF)]
+        if in_pkg:
+            # the exception passed through the package under test on a generated input that the harness expects to work:
+            # that is a failing input (the case is the replay), not an infrastructure failure
+            f = in_pkg[-1]
+            what = "unexpected %s from %s:%d (%s): %s" % (type(e).__name__, os.path.basename(f.filename), f.lineno, f.name, str(e)[:200])
+            return {"case": case, "result": {"crashed": what}, "oracle": [("crash", what)], "request": None, "nontrivial": False, "stats": {"impl_crash": 1}}
         return {"case": case, "crash": "%s: %s\n%s" % (type(e).__name__, e, traceback.format_exc()[-1500:])}
     out = {"case": case, "result": res}
     try:
@@ -56,7 +64,9 @@ def _work(case):
             _MOD.stats(case, res, st)
         out["stats"] = dict(st)
     except Exception as e:
-        out["crash"] = "stats %s: %s" % (type(e).__name__, e)
+        # statistics are informational: a case the implementation answers in an unexpected way must still reach the verdict
+        out.setdefault("nontrivial", False)
+        out["stats"] = {"stats_error_%s" % type(e).__name__: 1}
     return out
 
 
